@@ -9,6 +9,8 @@ import (
 	"errors"
 	"fmt"
 	"net"
+	"strconv"
+	"strings"
 
 	_ "github.com/mattn/go-sqlite3"
 )
@@ -42,7 +44,7 @@ func loadRecords(db *sql.DB) (map[string]*Record, error) {
 		if err := rows.Scan(&mac, &ip, &expiry, &hostname); err != nil {
 			return nil, fmt.Errorf("failed to scan row: %w", err)
 		}
-		hwaddr, err := net.ParseMAC(mac)
+		hwaddr, err := parseHWAddr(mac)
 		if err != nil {
 			return nil, fmt.Errorf("malformed hardware address: %s", mac)
 		}
@@ -56,6 +58,33 @@ func loadRecords(db *sql.DB) (map[string]*Record, error) {
 		return nil, fmt.Errorf("failed lease database row scanning: %w", err)
 	}
 	return records, nil
+}
+
+// parseHWAddr parses a hardware address in the form saveIPAddress stores it
+// (net.HardwareAddr.String(): colon-separated hex bytes). Unlike net.ParseMAC it
+// accepts any length, since DHCP clients may use hardware addresses of 0 to 16
+// bytes. A single byte that only contains decimal digits may come back from
+// sqlite as a number without its leading zero.
+func parseHWAddr(s string) (net.HardwareAddr, error) {
+	if s == "" {
+		return net.HardwareAddr{}, nil
+	}
+	parts := strings.Split(s, ":")
+	if len(parts) == 1 && len(s) == 1 {
+		parts[0] = "0" + s
+	}
+	hwaddr := make(net.HardwareAddr, len(parts))
+	for i, part := range parts {
+		if len(part) != 2 {
+			return nil, fmt.Errorf("invalid hardware address byte %q", part)
+		}
+		b, err := strconv.ParseUint(part, 16, 8)
+		if err != nil {
+			return nil, err
+		}
+		hwaddr[i] = byte(b)
+	}
+	return hwaddr, nil
 }
 
 // saveIPAddress writes out a lease to storage
